@@ -21,7 +21,31 @@ KERNELS = {
     "poly": dict(kernel="poly", degree=2, gamma=0.25, coef0=1),
     "cosine": dict(kernel="cosine"),
     "sigmoid": dict(kernel="sigmoid", gamma=0.02, coef0=0.5),
+    # a callable kernel with its own keyword arguments (kernel_params must reach the train AND every test kernel)
+    "callable": dict(kernel="callable", kernel_params={"c": 0.2}),
 }
+
+
+def laplace_kernel(x, y, c=1.0):
+    return float(np.exp(-c * np.abs(x - y).sum()))
+
+
+def kfun(kp):
+    return laplace_kernel if kp["kernel"] == "callable" else kp["kernel"]
+
+
+def kraw(A, B, kp, full):
+    from sklearn.metrics.pairwise import pairwise_kernels
+    if kp["kernel"] == "callable":
+        return pairwise_kernels(A, B, metric=laplace_kernel, **kp["kernel_params"])
+    return pairwise_kernels(A, B, metric=kp["kernel"], filter_params=True, **full)
+
+
+def kargs(kp, full):
+    d = dict(kernel=kfun(kp), gamma=full["gamma"], degree=full["degree"], coef0=full["coef0"])
+    if kp["kernel"] == "callable":
+        d["kernel_params"] = dict(kp["kernel_params"])
+    return d
 
 
 def case(cid, rng):
@@ -44,8 +68,8 @@ def case(cid, rng):
     k = int(rng.integers(1, 4))
     regk = ["none", "krr", "krr-fitted"][int(rng.integers(3))]
     alpha = 0.5
-    kpar = {kk: v for kk, v in kp.items() if kk != "kernel"}
-    Kraw = pairwise_kernels(X, metric=kp["kernel"], filter_params=True, **{**dict(gamma=None, degree=3, coef0=1), **kpar})
+    kpar = {kk: v for kk, v in kp.items() if kk not in ("kernel", "kernel_params")}
+    Kraw = kraw(X, None, kp, {**dict(gamma=None, degree=3, coef0=1), **kpar})
     if np.linalg.eigvalsh(Kraw).min() < -1e-9:      # input conditioning: the property presupposes a PSD kernel
         return None
     c = {"id": cid, "kernel": kname, "center": center, "a": a, "k": k, "reg": regk, "X": Xi.tolist(), "Yi": Yi.tolist(), "raised": False,
@@ -56,7 +80,7 @@ def case(cid, rng):
     def mkreg():
         if regk == "none":
             return None
-        r = KernelRidge(alpha=alpha, kernel=kp["kernel"], gamma=full["gamma"], degree=full["degree"], coef0=full["coef0"])
+        r = KernelRidge(alpha=alpha, **kargs(kp, full))
         if regk == "krr-fitted":
             Kfit = KernelNormalizer().fit_transform(Kraw.copy()) if center else Kraw
             r2 = KernelRidge(alpha=alpha, kernel="precomputed").fit(Kfit, Y)
@@ -70,10 +94,10 @@ def case(cid, rng):
             warnings.simplefilter("ignore")
             reg = mkreg()
             if regk == "krr-fitted" and center:
-                reg = KernelRidge(alpha=alpha, kernel=kp["kernel"], gamma=full["gamma"], degree=full["degree"], coef0=full["coef0"])
+                reg = KernelRidge(alpha=alpha, **kargs(kp, full))
                 c["reg"] = "krr"
             mdl = KernelPCovR(mixing=a / 8.0, n_components=k, regressor=reg, center=center, svd_solver="full", tol=1e-12,
-                              kernel=kp["kernel"], gamma=full["gamma"], degree=full["degree"], coef0=full["coef0"]).fit(X, Y)
+                              **kargs(kp, full)).fit(X, Y)
             TN = mdl.transform(X)
             c["TN"], c["ypN"] = fq(TN), fq(np.reshape(mdl.predict(X), (n, -1)))
             c["W"] = fq(np.reshape(mdl.regressor_.dual_coef_, (n, -1)))
@@ -94,8 +118,8 @@ def case(cid, rng):
         Xv = rng.integers(-6, 7, size=(V, m)) / 4.0
         Yv = rng.integers(-6, 7, size=(V, p)) / 4.0
         Yv[0, 0] = Yv[0, 0] if Yv[0, 0] != 0 else 0.5
-        KVN = pairwise_kernels(Xv, X, metric=kp["kernel"], filter_params=True, **full)
-        KVV = pairwise_kernels(Xv, metric=kp["kernel"], filter_params=True, **full)
+        KVN = kraw(Xv, X, kp, full)
+        KVV = kraw(Xv, None, kp, full)
         h = {"V": V, "KVN": fq(KVN), "KVV": fq(KVV), "Y": fq(Yv), "TV": [], "yp": [], "score": 0, "raised": False, "finite": True}
         try:
             with warnings.catch_warnings():
@@ -127,7 +151,7 @@ def case(cid, rng):
                 Kmodel = mdl.centerer_.transform(Kraw.copy()) if center else Kraw
                 Wm = np.reshape(mdl.regressor_.dual_coef_, (n, -1))
                 pp = KernelPCovR(mixing=a / 8.0, n_components=k, regressor="precomputed", center=center, svd_solver="full", tol=1e-12,
-                                 kernel=kp["kernel"], gamma=full["gamma"], degree=full["degree"], coef0=full["coef0"]).fit(X, Kmodel @ Wm, W=Wm.copy())
+                                 **kargs(kp, full)).fit(X, Kmodel @ Wm, W=Wm.copy())
                 add_route("precomputed-regressor", pp.transform(X), pp.transform(Xv1))
             if regk != "krr-fitted":
                 alpha_r = 1.0 if regk == "none" else alpha
